@@ -383,7 +383,7 @@ def _type_check_comparison_operator(expression, source_file_name, errors):
     left = expression.function.args[0]
     right = expression.function.args[1]
     for argument, name in ((left, "Left"), (right, "Right")):
-        if argument.type.which_type not in acceptable_types:
+        if ir_data_utils.reader(argument).type.which_type not in acceptable_types:
             errors.append(
                 [
                     error.error(
